@@ -8,6 +8,8 @@
 #include <list>
 #include <deque>
 #include <algorithm>
+#include <sys/wait.h>
+#include <fcntl.h>
 #define private public
 #define protected public
 #include "libTMCG.hh"
@@ -50,7 +52,17 @@ static void hook(const std::string &input, mpz_srcptr output) {
 			pos = e + 1;
 		}
 		c["in"] = in;
-	} else { c["str"] = s.size() > 200 ? s.substr(0, 200) : s; c["len"] = s.size(); plain = true; }
+	} else {
+		c["str"] = s.size() > 60 ? s.substr(0, 60) : s; c["len"] = s.size(); plain = true;
+		// a hashed stack (cut-and-choose commitment): log its cards
+		std::string t = s; while (!t.empty() && (t[t.size() - 1] == '\n')) t.erase(t.size() - 1);
+		TMCG_Stack<VTMF_Card> st;
+		if (t.compare(0, 4, "stk^") == 0 && st.import(t)) {
+			json a = json::array();
+			for (size_t i = 0; i < st.size(); i++) { json cc = json::array(); cc.push_back(mpz2l(st[i].c_1)); cc.push_back(mpz2l(st[i].c_2)); a.push_back(cc); }
+			c["stack"] = a;
+		}
+	}
 	(void)plain;
 	c["out"] = num(output);
 	hcalls.push_back(c);
@@ -76,6 +88,7 @@ static json coins() {               // the draws of the last call, classified by
 }
 static void begin_op() { hcalls = json::array(); seam::clear_log(); }
 
+static unsigned long rnd(unsigned long m);
 struct Player {
 	BarnettSmartVTMF_dlog *vt;
 	SchindelhauerTMCG *tm;
@@ -319,6 +332,104 @@ static void exec_op(World *w, const json &op) {
 			w->ssecs[op["dst"]] = pi; ev["dst"] = op["dst"]; ev["out"] = ssec_j(pi); ev["coins"] = coins();
 		} else if (o == "TypeAll") {    // open every card of a stack with all secret keys (ghost oracle for C02: which type sits where)
 			ev["stack"] = stack_j(w->stacks[op["src"]]);
+		} else if (o == "Subst") {      // replace one card of a stack (to obtain a false statement)
+			TMCG_Stack<VTMF_Card> s2;
+			const TMCG_Stack<VTMF_Card> &src = w->stacks[op["src"]];
+			for (size_t k = 0; k < src.size(); k++) { if (k == op["pos"].get<size_t>()) s2.push(w->cards[op["card"]]); else s2.push(src[k]); }
+			w->stacks[op["dst"]] = s2; ev["dst"] = op["dst"]; ev["stack"] = stack_j(s2);
+		} else if (o == "ImportSS") {   // import a stack secret with a given index vector
+			std::ostringstream os; os << "sts^" << op["pi"].size() << "^";
+			for (size_t k = 0; k < op["pi"].size(); k++) { VTMF_CardSecret cs; mpz_set_ui(cs.r, 2 + k); os << op["pi"][k].get<long>() << "^" << cs << "^"; }
+			TMCG_StackSecret<VTMF_CardSecret> ss;
+			bool r = ss.import(os.str());
+			ev["pi"] = op["pi"]; ev["res"] = r; ev["coins"] = coins();
+		} else if (o == "CC") {         // cut-and-choose shuffle proof: prover i, verifier j
+			size_t j = op["j"]; unsigned long kappa = op["kappa"]; bool cyc = op["cyclic"];
+			std::string mode = op.value("mode", std::string("honest"));
+			const TMCG_Stack<VTMF_Card> &s = w->stacks[op["s"]], &s2 = w->stacks[op["s2"]];
+			json bits = op["bits"];
+			size_t n = s.size();
+			std::string ptext;
+			if (mode == "guess") {        // a prover without a fitting secret prepares round r for the guessed challenge
+				std::ostringstream os;
+				for (unsigned long r = 0; r < kappa; r++) {
+					TMCG_StackSecret<VTMF_CardSecret> ssr; TMCG_Stack<VTMF_Card> s3;
+					for (size_t k = 0; k + 1 < (cyc ? 2 : n); k++) seam::push_native_ul(rnd(1UL << 31));
+					P.tm->TMCG_CreateStackSecret(ssr, cyc, n, P.vt);
+					P.tm->TMCG_MixStack((op["guess"][r].get<int>() & 1) ? s2 : s, s3, ssr, P.vt);
+					std::ostringstream ost; ost << s3 << std::endl;
+					Mpz com; tmcg_mpz_shash(com, ost.str());
+					os << (mpz_srcptr)com.v << std::endl << ssr << std::endl;
+				}
+				ptext = os.str();
+			} else {
+				std::ostringstream pin; pin << kappa << std::endl;
+				for (unsigned long r = 0; r < kappa; r++) pin << bits[r].get<int>() << std::endl;
+				for (unsigned long r = 0; r < kappa; r++) for (size_t k = 0; k + 1 < (cyc ? 2 : n); k++) seam::push_native_ul(rnd(1UL << 31));
+				std::istringstream in(pin.str()); std::ostringstream os;
+				P.tm->TMCG_ProveStackEquality(s, s2, w->ssecs[op["ss"]], cyc, P.vt, in, os);
+				ptext = os.str();
+			}
+			seam::clear_script();
+			ev["hp"] = hcalls; hcalls = json::array();
+			json pc = coins(); (void)pc;
+			// the transcript: per round a commitment line and a stack secret line
+			std::vector<std::string> lines; { std::istringstream ls(ptext); std::string ln; while (std::getline(ls, ln)) lines.push_back(ln); }
+			if (mode == "badsize" && lines.size() >= 2) {   // answer round 1 with a stack secret of another size
+				TMCG_StackSecret<VTMF_CardSecret> ss0, ss1; ss0.import(lines[1]);
+				size_t drop = op.value("grow", false) ? n + 1 : n - 1;
+				for (size_t k = 0; k < ss0.size(); k++) if (ss0[k].first < drop) ss1.push(ss0[k].first, ss0[k].second);
+				if (drop > n) { VTMF_CardSecret cs; mpz_set_ui(cs.r, 2); ss1.push(n, cs); }
+				std::ostringstream o1; o1 << ss1; lines[1] = o1.str();
+			}
+			json rounds = json::array();
+			for (size_t r = 0; 2 * r + 1 < lines.size(); r++) {
+				json rd; Mpz com; mpz_set_str(com, lines[2 * r].c_str(), TMCG_MPZ_IO_BASE);
+				rd["com"] = num(com);
+				TMCG_StackSecret<VTMF_CardSecret> ssr;
+				if (ssr.import(lines[2 * r + 1])) rd["rev"] = ssec_j(ssr); else rd["rev"] = json::array();
+				rounds.push_back(rd);
+			}
+			std::string vin; for (size_t k = 0; k < lines.size(); k++) vin += lines[k] + "\n";
+			ev["j"] = j; ev["kappa"] = kappa; ev["cyclic"] = cyc; ev["mode"] = mode; ev["bits"] = bits;
+			if (op.contains("guess")) ev["guess"] = op["guess"];
+			ev["s"] = stack_j(s); ev["s2"] = stack_j(s2); ev["rounds"] = rounds;
+			if (op.contains("ss") && w->ssecs.count(op["ss"])) ev["ss"] = ssec_j(w->ssecs[op["ss"]]);
+			// the verifier runs in a child process: a crash must be observed, not suffered
+			int pfd[2]; if (pipe(pfd) != 0) throw std::runtime_error("pipe");
+			fflush(stdout); w->out->flush();
+			pid_t pid = fork();
+			if (pid == 0) {
+				close(pfd[0]);
+				{ int dn = open("/dev/null", O_WRONLY); if (dn >= 0) { dup2(dn, 2); close(dn); } }   // assert() messages
+				json res;
+				try {
+					for (unsigned long r = 0; r < kappa; r++) seam::push_be_ui(1, (unsigned long)(bits[r].get<int>() & 1));
+					SchindelhauerTMCG tv(kappa, w->np, w->w);
+					std::istringstream in(vin); std::ostringstream vo;
+					hcalls = json::array();
+					bool ok = tv.TMCG_VerifyStackEquality(s, s2, cyc, w->pl[j].vt, in, vo);
+					res["res"] = ok; res["h"] = hcalls;
+					json vout = json::array(); { std::istringstream vs(vo.str()); std::string ln; while (std::getline(vs, ln)) { Mpz x; mpz_set_str(x, ln.c_str(), TMCG_MPZ_IO_BASE); vout.push_back(x.l()); } }
+					res["vout"] = vout;
+				} catch (std::exception &ex) { res["exc"] = ex.what(); }
+				std::string d = res.dump();
+				ssize_t wr = write(pfd[1], d.data(), d.size()); (void)wr;
+				close(pfd[1]); _exit(0);
+			}
+			close(pfd[1]);
+			std::string got; char buf[65536]; ssize_t k;
+			while ((k = read(pfd[0], buf, sizeof(buf))) > 0) got.append(buf, (size_t)k);
+			close(pfd[0]);
+			int status = 0; waitpid(pid, &status, 0);
+			hcalls = json::array();
+			if (WIFSIGNALED(status)) ev["crash"] = std::string("signal ") + std::to_string(WTERMSIG(status));
+			else if (got.empty()) ev["crash"] = "no result";
+			else {
+				json res = json::parse(got);
+				if (res.contains("exc")) ev["exc"] = res["exc"];
+				else { ev["res"] = res["res"]; ev["vout"] = res["vout"]; hcalls = res["h"]; }
+			}
 		} else {
 			ev["unknown"] = true;
 		}
@@ -446,7 +557,32 @@ static json random_schedule(unsigned long seed, long x) {
 			add({{"op", "SSec"}, {"i", who}, {"n", n}, {"cyclic", cyc}, {"dst", sid + 1}, {"coins", coins}});
 			add({{"op", "Mix"}, {"i", who}, {"src", sid}, {"ss", sid + 1}, {"dst", sid + 1}, {"tap", rnd(2) == 0}});
 			if (r > 0 && rnd(2)) add({{"op", "Glue"}, {"i", who}, {"sigma", sid}, {"pi", sid + 1}, {"dst", 100 + sid}});
+			if (rnd(100) < F.proofs) {
+				// cut-and-choose proof of the shuffle just made: honest, with a wrong-sized answer, and a guessing prover
+				unsigned long kappa = rnd(5);
+				json bits = json::array(); for (unsigned long b = 0; b < kappa; b++) bits.push_back(rnd(2));
+				size_t v = rnd(np);
+				add({{"op", "CC"}, {"i", who}, {"j", v}, {"s", sid}, {"s2", sid + 1}, {"ss", sid + 1}, {"cyclic", cyc}, {"kappa", kappa}, {"bits", bits}});
+				if (kappa > 0 && n >= 2 && F.muts > 0) add({{"op", "CC"}, {"i", who}, {"j", v}, {"s", sid}, {"s2", sid + 1}, {"ss", sid + 1}, {"cyclic", cyc}, {"kappa", kappa}, {"bits", bits}, {"mode", "badsize"}, {"grow", rnd(2) == 0}});
+				if (kappa > 0 && F.muts > 0) {
+					// false statement: one card of the output replaced by a fresh card of another type
+					long fc = cid++;
+					add({{"op", "Priv"}, {"i", who}, {"t", rnd(T)}, {"dst", fc}});
+					add({{"op", "Subst"}, {"src", sid + 1}, {"dst", 200 + sid}, {"pos", rnd(n)}, {"card", fc}});
+					json guess = json::array(); for (unsigned long b = 0; b < kappa; b++) guess.push_back(rnd(2));
+					add({{"op", "CC"}, {"i", who}, {"j", v}, {"s", sid}, {"s2", 200 + sid}, {"cyclic", cyc}, {"kappa", kappa}, {"bits", guess}, {"guess", guess}, {"mode", "guess"}});
+					add({{"op", "CC"}, {"i", who}, {"j", v}, {"s", sid}, {"s2", 200 + sid}, {"cyclic", cyc}, {"kappa", kappa}, {"bits", bits}, {"guess", guess}, {"mode", "guess"}});
+				}
+			}
 			sid++;
+		}
+	}
+	if (FOCUS == "c02" || FOCUS == "all") {
+		for (int rep = 0; rep < 6; rep++) {
+			size_t n = 1 + rnd(5); json pi = json::array();
+			if (rnd(2)) { std::vector<size_t> v; for (size_t k = 0; k < n; k++) v.push_back(k); for (size_t a = 0; a + 1 < n; a++) std::swap(v[a], v[a + rnd(n - a)]); for (size_t k = 0; k < n; k++) pi.push_back(v[k]); if (rnd(3) == 0 && n > 1) pi[rnd(n)] = pi[rnd(n)]; }
+			else for (size_t k = 0; k < n; k++) pi.push_back(rnd(n + (rnd(8) == 0 ? 1 : 0)));
+			add({{"op", "ImportSS"}, {"pi", pi}});
 		}
 	}
 	s["ops"] = ops;
